@@ -140,7 +140,11 @@ func (e *dbEngine) Execute(t *testing.T, plan *Plan, res *Result) {
 			}
 		}
 	}
-	res.Stats["groups"] = int64(h.model.Len())
+	if h.conc == nil {
+		// Concurrent profiles keep their history in h.conc, not in h.model:
+		// verifyConcurrent has already recorded the number of committed groups.
+		res.Stats["groups"] = int64(h.model.Len())
+	}
 	res.Stats["ops"] = int64(h.pc)
 	if traceFile != "" {
 		writeTrace(h.sim)
